@@ -21,9 +21,12 @@ RULE = ('one evaluation = one simulated run: real daemon D serving real daemon P
         'events reached D while it held an IKE_SA; distinct = distinct sequence of (event kind, node, exchange, req/resp)')
 COMPONENTS = {'real': ['ikesacontroller.main_loop (real thread per node)', 'ikesa.py', 'message.py', 'crypto.py', 'xfrm.py',
                        'netlink.py', 'configuration.py'],
-              'stub': ['clock', 'select', 'sockets', 'XFRM kernel model', 'randomness', 'hostile source (generator)']}
+              'stub': ['clock', 'select', 'sockets', 'XFRM kernel model', 'randomness', 'hostile source (generator)', 'Byzantine interposer + reference codec/key schedule (sim/byz.py, sim/refike.py)']}
 ASSUMPTIONS = ['bounded time = interpreted-line budget 20000 + 250 per received octet per loop iteration',
-               'authenticated-but-malformed input (needs the peer keys) is exercised by C06, not here']
+               'authenticated-but-malformed input is produced by an interposer that re-makes the protected messages of the two daemons with the '
+               'session keys the wiretap derived (sim/byz.py auth_malformed); it stops at the start of the fault-free tail',
+               '"keeps serving": (a) a restarted peer obtains a working CHILD_SA in the fault-free tail (differential against the run without '
+               'hostile input), (b) no run of 6 idle timer ticks that all end in the loop catch-all with the same error (event_loop_wedged)']
 EXPECT_REACH = ['hostile_delivered', 'hostile_while_sa', 'kernel_oddity', 'sendto_failure', 'receive_failure', 'netlink_refusal',
                 'probe_served', 'byz.auth_malformed', 'byz.auth_malformed.request', 'byz.auth_malformed.response']
 NOT_EXERCISED = []
